@@ -156,9 +156,19 @@ impl BaseStream {
                 thread::spawn(move || {
                     #[cfg(feature = "verif-hooks")]
                     verif_ctx.point("wd.start");
-                    let shutdown = match deadline.checked_duration_since(Instant::now()) {
-                        Some(timeout) => rx.recv_timeout(timeout) == Err(mpsc::RecvTimeoutError::Timeout),
-                        None => rx.try_recv() == Err(mpsc::TryRecvError::Empty),
+                    let shutdown = loop {
+                        let res = match deadline.checked_duration_since(Instant::now()) {
+                            Some(timeout) => rx
+                                .recv_timeout(timeout)
+                                .map_err(|err| err == mpsc::RecvTimeoutError::Timeout),
+                            None => rx.try_recv().map_err(|err| err == mpsc::TryRecvError::Empty),
+                        };
+                        match res {
+                            // The reader saw the end of the stream and asked whether the deadline
+                            // had passed: not yet. Keep watching, later reads will ask again.
+                            Ok(()) => continue,
+                            Err(timed_out) => break timed_out,
+                        }
                     };
 
                     #[cfg(feature = "verif-hooks")]
